@@ -10,6 +10,9 @@ CHECKS = {
     'C01': ('exploration', 'runtime monitoring: every NEWSA request and IKE keyring of both daemons compared online with an independent RFC 7296 key schedule fed from the wire and the tapped DH private values; mirror-image comparison of the two model SADs after every completed negotiation',
             'Configuration pairs with differing preference orders (all ENCR key lengths, INTEG, PRF, DH groups, ESP/AH, modes, IPv4/IPv6, PSK/RSA, PFS on/off, COOKIE / INVALID_KE retries) run long histories of successful negotiations (initial, new CHILD, CHILD rekey, IKE rekey, again on the successor) sequentially and as crossing exchanges; each installed SA must carry exactly the direction keys, algorithms, addresses, mode and selectors the reference derives, each keyring must equal the reference, and both kernels must hold equal records. Held on the executions observed.',
             'honest peers, lossless delivery; lifetimes excluded from the mirror comparison (per-side jitter by design); reference = hashlib/hmac/python-int DH', '2/C01'),
+    'C03': ('exploration', 'runtime monitoring: full-state snapshot equality, kernel-request counter and reply oracle around every injected non-authentic datagram (classified by an independent ICV check), in every keyed state of both roles',
+            'A scenario catalogue reaches all 24 (role, keyed state) combinations incl. every request-outstanding state, REKEYED, DEL_AFTER_REKEY and rekeyed successors; in each, ~1 400 forged datagrams (cleartext of every exchange type / flag / Message ID around the window / payload set, every truncation, bit flips, resizes of authentic datagrams, messages under other keys, reflections) are fed through the real main_loop, dispatch_message and process_message; nothing observable may change and nothing may be answered except the cached IKE_SA_INIT response.',
+            'snapshot = state, both counters, CHILD_SAs, DPD deadline, retransmission fields, cached response, pending events, successor, SAD, netlink request count; quick tier flips 3 bit positions per octet', '2/C03'),
     'C04': ('exploration', 'runtime differential monitoring against an independent RFC 7296 / RFC 3526 / RFC 5903 implementation: direct calls (prf+, sizes, constants, DH objects incl. leading-zero secrets, key schedule) and online comparison of every derivation in simulated histories',
             'prf+ for all output lengths (quick: dense sample), transform sizes, the five MODP primes recomputed from the RFC 3526 formula, ECP public values / secrets by integer scalar multiplication, real DH objects fed peer values whose secret has a leading zero octet, the IKE key schedule (initial and rekey with old SK_d and old PRF) and KEYMAT for every PRF x INTEG x key length with 16..256-octet nonces, and end-to-end every keyring / NEWSA key in histories covering every suite and group.',
             'primality of the constants is out of reach (only equality with the published definitions); trusted base hashlib/hmac/python ints', '2/C04'),
